@@ -113,7 +113,20 @@ def printer_model(ctx, prog):
             sv = S.val(tt["args"][1])
             m = re.search(r"s:'(.*)'$", sv)
             lit = m.group(1) if m else None
-            lts = [e for (e, truth, g) in S.bool_facts_at(b) if truth is True and re.search(r" Lt p3\)$", e)]
+            lts = []
+            for (e, truth, g) in S.bool_facts_at(b):
+                # `X < parent_prec` in any spelling: X < p, p > X, !(p <= X), !(X >= p)
+                if not isinstance(truth, bool):
+                    continue
+                from ..sym import split_bin as _sb
+                sb_ = _sb(e)
+                if not sb_:
+                    continue
+                a_, op_, b_ = sb_
+                if b_ == "p3" and ((op_ == "Lt" and truth) or (op_ == "Ge" and not truth)):
+                    lts.append("(%s Lt p3)" % a_)
+                elif a_ == "p3" and ((op_ == "Gt" and truth) or (op_ == "Le" and not truth)):
+                    lts.append("(%s Lt p3)" % b_)
             if lit == "(":
                 opens.append(lts)
             elif lit == ")":
@@ -124,12 +137,12 @@ def printer_model(ctx, prog):
     return f, S, model, prec_tab, vs
 
 
-def prec_value(expr, prec_tab, op):
+def prec_value(expr, prec_tab, op, _depth=0):
     """evaluate an extracted precedence expression for a concrete BinOp variant name"""
     e = expr
     m = re.fullmatch(r"\((.*) Add! c:(\d+)\)\.0", e)
     if m:
-        inner = prec_value(m.group(1), prec_tab, op)
+        inner = prec_value(m.group(1), prec_tab, op, _depth)
         return None if inner is None else inner + int(m.group(2))
     m = re.fullmatch(r"c:(-?\d+)", e)
     if m:
@@ -137,7 +150,14 @@ def prec_value(expr, prec_tab, op):
     m = re.match(r"(?:call@\d+:)?(internal::expr::(?:BinOp|UnOp)::\w+)", e)
     if m:
         d = (prec_tab.get(m.group(1)) or {}).get(op) if op else None
-        return d[1] if d and d[0] == "int" else None
+        if d and d[0] == "int":
+            return d[1]
+        # a table derived from another one: `left_operand_precedence` written as `self.precedence()` or `self.precedence() + 1` per arm
+        if d and d[0] == "expr" and _depth < 3:
+            return prec_value(d[1], prec_tab, op, _depth + 1)
+        if d and d[0] == "call" and _depth < 3 and len(d) > 1 and isinstance(d[1], str):
+            return prec_value(d[1], prec_tab, op, _depth + 1)
+        return None
     return None
 
 
